@@ -777,6 +777,7 @@ func (l *Lowerer) rangeStmt(x *ast.RangeStmt, label string) {
 			var ev *Term
 			if isSlice {
 				ev = l.p.reg.sIndex(sv, iv)
+				l.linkIdx(sv, iv, elemT)
 			} else {
 				ev = Select(sv, iv)
 			}
